@@ -6,11 +6,11 @@
 -/
 import DymVerif.Lemmas.CoreFork
 import DymVerif.Lemmas.CoreSearch
-namespace DymVerif.Core
+namespace DymVerif.Core.Fork
 
 -- ---------------------------------------------------------------- chain facts
 
-theorem SInfo.WF.last_eq {st : SInfo} (hw : st.WF) : st.last = st.start + st.num - 1 := by
+theorem _root_.DymVerif.Core.SInfo.WF.last_eq {st : SInfo} (hw : st.WF) : st.last = st.start + st.num - 1 := by
   unfold SInfo.last; rw [if_pos (by have := hw.num_pos; omega)]
 
 theorem getElem?_lt {α : Type _} {l : List α} {i : Nat} {a : α} (h : l[i]? = some a) : i < l.length := by
@@ -21,7 +21,7 @@ theorem getElem?_lt {α : Type _} {l : List α} {i : Nat} {a : α} (h : l[i]? = 
 theorem getLast?_getElem? {α : Type _} (l : List α) : l.getLast? = l[l.length - 1]? := List.getLast?_eq_getElem? ..
 
 /-- every state ends at or before the end of the latest one -/
-theorem Chain.le_last {l : List SInfo} (hc : Chain l) {x : SInfo} (hl : l.getLast? = some x) :
+theorem _root_.DymVerif.Core.Chain.le_last {l : List SInfo} (hc : Chain l) {x : SInfo} (hl : l.getLast? = some x) :
     ∀ (i : Nat) (st : SInfo), l[i]? = some st → st.start + st.num ≤ x.start + x.num := by
   intro i st hst
   rw [getLast?_getElem?] at hl
@@ -34,7 +34,7 @@ theorem Chain.le_last {l : List SInfo} (hc : Chain l) {x : SInfo} (hl : l.getLas
     rw [this, hl] at hst; injection hst with hst; subst hst; exact Nat.le_refl _
 
 /-- every state starts at or after the first one -/
-theorem Chain.first_le {l : List SInfo} (hc : Chain l) {f : SInfo} (hf : l[0]? = some f) :
+theorem _root_.DymVerif.Core.Chain.first_le {l : List SInfo} (hc : Chain l) {f : SInfo} (hf : l[0]? = some f) :
     ∀ (i : Nat) (st : SInfo), l[i]? = some st → f.start ≤ st.start := by
   intro i st hst
   rcases Nat.eq_zero_or_pos i with h0 | h0
@@ -114,7 +114,7 @@ theorem findByHeight_none_cases {r : Rollapp} (hc : Chain r.states) {n : Nat} (h
       cases hnone
 
 /-- two states containing the same height are the same position -/
-theorem Chain.container_unique {l : List SInfo} (hc : Chain l) {i j n : Nat} {a b : SInfo}
+theorem _root_.DymVerif.Core.Chain.container_unique {l : List SInfo} (hc : Chain l) {i j n : Nat} {a b : SInfo}
     (ha : l[i]? = some a) (hb : l[j]? = some b) (ha1 : a.start ≤ n) (ha2 : n ≤ a.last)
     (hb1 : b.start ≤ n) (hb2 : n ≤ b.last) : i = j := by
   have hwa := hc.wf a (List.mem_of_getElem? ha)
@@ -443,4 +443,4 @@ theorem revertPlan_noState {r : Rollapp} {n : Nat} (h : r.states = []) : revertP
     by_cases hn : n = 0 <;> simp [hn]
   rw [revertPlan_eq, this]
 
-end DymVerif.Core
+end DymVerif.Core.Fork
